@@ -49,9 +49,9 @@ macro_rules! p32_struct {
         }
     };
 }
-//@ h=k_p32_d12 props=C02,C07 cfgs=K0 tier=q t=600 | funcs: pseudo_simd_32::distance_12 | bound: all pairs of 12-byte bodies: == sum of the real kernel over the three 4-byte chunks
+//@ h=k_p32_d12 props=C02,C07,C08 cfgs=K0 tier=q t=600 | funcs: pseudo_simd_32::distance_12 | bound: all pairs of 12-byte bodies: == sum of the real kernel over the three 4-byte chunks
 p32_struct!(k_p32_d12, distance_12, 12, 6);
-//@ h=k_p32_d32 props=C02,C07 cfgs=K0 tier=q t=900 | funcs: pseudo_simd_32::distance_32 | bound: all pairs of 32-byte bodies: == sum of the real kernel over 8 chunks
+//@ h=k_p32_d32 props=C02,C07,C08 cfgs=K0 tier=q t=900 | funcs: pseudo_simd_32::distance_32 | bound: all pairs of 32-byte bodies: == sum of the real kernel over 8 chunks
 p32_struct!(k_p32_d32, distance_32, 32, 12);
 //@ h=k_p32_d64 props=C02,C07 cfgs=K0 tier=t t=1800 | funcs: pseudo_simd_32::distance_64 | bound: all pairs of 64-byte bodies: == sum of the real kernel over 16 chunks
 p32_struct!(k_p32_d64, distance_64, 64, 20);
